@@ -210,7 +210,14 @@ pub fn generate(run_seed: u64, quick: bool) -> Scenario {
         config.use_doc_css = wl.chance(3, 4);
         if config.css.is_empty() || wl.chance(1, 2) {
             let mut text = String::new();
-            match wl.below(4) {
+            match wl.below(5) {
+                4 => {
+                    // very long selectors.  Matching costs (components x
+                    // elements), so the length is bounded by the document.
+                    let nmax = (20_000_000 / doc_bytes_len.max(64)).clamp(10, 100_000);
+                    let n = if wl.chance(1, 2) { nmax } else { wl.urange(10, nmax) };
+                    text = gen_long_selector_sheet(&mut wl, n);
+                }
                 0 => {
                     let n = wl.urange(1, 60);
                     gen_css_soup(&mut wl, &mut text, n)
@@ -431,7 +438,7 @@ pub fn generate(run_seed: u64, quick: bool) -> Scenario {
     let stack_kib = if class == 3 {
         er.pick(&[256u32, 1024, 2048, 2048, 8192])
     } else {
-        er.pick(&[2048u32, 8192])
+        if class == 2 { er.pick(&[256u32, 1024, 2048, 8192]) } else { er.pick(&[2048u32, 8192]) }
     };
     Scenario {
         property: "C01".into(),
